@@ -675,30 +675,54 @@ func (g *Graph) allTypes(f func(t *Type)) {
 	}
 }
 
-// permute reorders the members of every object and/or union (never the identity where avoidable).
+// permute reorders the members of every object and/or union (never the
+// identity where avoidable). The permutation of a node depends only on the
+// stream and on the node's own member names, not on the traversal order, so
+// permuting objects and unions separately reproduces what permuting both did.
 func permute(g *Graph, r *vc.Rand, objs, unions bool) int {
 	n := 0
+	seed := r.Uint64()
 	g.allTypes(func(t *Type) {
 		if (t.K == "object" && objs || t.K == "union" && unions) && len(t.Fields) >= 2 {
-			p := r.Perm(len(t.Fields))
-			id := true
+			ns := fieldNames(t)
+			var k uint64 = 1469598103934665603
+			for _, c := range []byte(t.K + "|" + strings.Join(ns, "|")) {
+				k = (k ^ uint64(c)) * 1099511628211
+			}
+			// permute relative to the sorted order so that the result does not depend on the current order
+			byName := map[string]*Field{}
+			for _, f := range t.Fields {
+				byName[f.Name] = f
+			}
+			p := vc.NewRand(seed, k).Perm(len(ns))
+			same := true
 			for i, v := range p {
-				if i != v {
-					id = false
+				if t.Fields[i].Name != ns[v] {
+					same = false
 				}
 			}
-			if id {
+			if same {
 				p[0], p[1] = p[1], p[0]
 			}
 			nf := make([]*Field, len(p))
 			for i, v := range p {
-				nf[i] = t.Fields[v]
+				nf[i] = byName[ns[v]]
 			}
 			t.Fields = nf
 			n++
 		}
 	})
 	return n
+}
+
+// multiTagAny reports whether some attribute carries >= 2 struct:field:* keys.
+func (g *Graph) multiTagAny() bool {
+	for _, p := range g.allPositions() {
+		if len(tagsOf(p.a)) >= 2 {
+			return true
+		}
+	}
+	return false
 }
 
 // decorate changes things the documented rules do not mention: description,
